@@ -3,6 +3,8 @@
 import json, os
 V = os.path.dirname(os.path.dirname(os.path.abspath(__file__)))
 CLAIMED = {
+ "C01": ("wait-site / schedule-site classification into four hold-off mechanisms with per-mechanism order, guard and lock rules; swap callers; deferred-slot writers; state-writer table; stale-manager dataflow; no-touch-after-schedule; done-fiber hand-over",
+         "CFG must-pass-through / dominance / guard rules, who-may-call and who-may-write tables, reaching-definition dataflow (STALE, NOTOUCH) over the whole library"),
  "C02": ("Chase-Lev skeleton (fence, last-element CAS, bottom restore, steal order, publish order, growth), writers table, owner discipline, steal index table, idle loop",
          "CFG dominance / fence / guard rules + enumerated index tables over work_stealing_deque.c and the scheduler"),
  "C10": ("fairness certificate: push/pop deque fields differ, swap only on empty, successor re-queue",
